@@ -481,7 +481,8 @@ class World:
 
 # ---- generation -----------------------------------------------------------------------------------
 
-REGEX_POOL = [".*", "x", "q", "[a-z]+", "1", "[0-9]+$", "", "L+A$", "^q", ".", "None", "\\(", "é", "a b", "a  b", "a\tb", ".* x", ".*  x", "q .*"]
+# (the last entries carry regex escapes that a JSON-style unescaping of the quoted text would change: \b, \\, \d ...)
+REGEX_POOL = ["x\\b", "\\bq", "q\\b", "\\d+", "\\w+$", "\\s*x", "a\\\\b", "[^\\\\]+$", "(x)\\1", "\\.", ".*", "x", "q", "[a-z]+", "1", "[0-9]+$", "", "L+A$", "^q", ".", "None", "\\(", "é", "a b", "a  b", "a\tb", ".* x", ".*  x", "q .*"]
 
 
 class Gen:
@@ -972,7 +973,7 @@ def make_config(rseed: int, prop: str, tier: str, faults: bool) -> dict[str, Any
             "leaf_classes": ["LeafA", "LeafB", "LeafA2", "Meta"] + r.sample(["Vals", "Vals", "Lit", "Upper", "Both"], r.choice([0, 1, 2])),
             "inner_classes": r.sample(["Pair", "Seq", "Mixed", "Fixed", "Falsy"], r.choice([2, 3, 5])),
             "origins": r.sample(U.ORIGIN_KEYS, r.choice([2, 3])),
-            "pools": {"str": r.sample([s for s in U.STR_POOL if "\n" not in s] + ["a b", "a  b", "a\tb", "q  x"], r.choice([2, 3, 5])), "bool": [True, False]},
+            "pools": {"str": r.sample([s for s in U.STR_POOL if "\n" not in s] + ["a b", "a  b", "a\tb", "q  x", "a\\b", "x b", "q1", "xx"], r.choice([2, 3, 5])), "bool": [True, False]},
             "actors": ["m0"],
             "rtc": False,
         },
